@@ -233,7 +233,7 @@ def gen_op(rng, plat, hostname):
             kw["timeout_ops"] = rng.choice([500, 0])
         return ["send_command", rng.choice(CMDS), kw]
     if name in ("send_commands", "send_commands_from_file"):
-        cmds = [rng.choice(CMDS) for _ in range(rng.randint(0, 4))]
+        cmds = [rng.choice(CMDS) for _ in range(rng.choice([0, 1, 2, 2, 3, 3, 4]))]
         if name.endswith("file"):
             cmds = [c for c in cmds if c.strip()] or ["show clock"]
         if rng.random() < 0.4:
@@ -257,7 +257,7 @@ def gen_op(rng, plat, hostname):
         if lv and rng.random() < 0.4:
             kw["privilege_level"] = rng.choice(lv)
         if plat in ("arista_eos", "cisco_nxos") and rng.random() < 0.3:
-            kw["privilege_level"] = "sess1"
+            kw["privilege_level"] = "sess1"          # gen_scenario registers it first (most of the time)
         if rng.random() < 0.05:
             kw["privilege_level"] = "nonexistent"
         if name == "send_config":
@@ -276,6 +276,8 @@ def gen_op(rng, plat, hostname):
     if name == "channel_send_input":
         return ["channel_send_input", rng.choice(CMDS[:6]), {"strip_prompt": rng.random() < 0.5}]
     final = _prompt_of(plat, None, hostname)
+    if rng.random() < 0.5:
+        final = r"^.*[#>%]\s*$"                      # whatever mode the device is in (prompts starting with ^ and ending with $ are regexes)
     if name == "send_interactive":
         cmd = rng.choice(list(CONFIRMS))
         q, hidden = CONFIRMS[cmd]
@@ -299,7 +301,8 @@ def gen_op(rng, plat, hostname):
             kw = {"read_duration": 3600}                                   # until the prompt
         return ["send_and_read", cmd, kw]
     # read_callback
-    cbs = [{"contains": final, "send": "show clock", "name": "c1", "only_once": True},
+    cbs = [{"contains_re": r"[#>%]\s*$", "send": "show clock", "name": "c1", "only_once": True} if final.startswith("^") else
+           {"contains": final, "send": "show clock", "name": "c1", "only_once": True},
            {"contains": "UTC", "complete": True, "name": "c2"}]
     if rng.random() < 0.3:
         cbs = [{"contains_re": r"uptime is \d+", "complete": True, "name": "c3", "send": None}]
@@ -318,7 +321,7 @@ def gen_scenario(rng, plat=None):
         dev["login_mode"] = "exec"
         if rng.random() < 0.7:
             dev["enable_password"] = "en"
-            conn["auth_secondary"] = rng.choice(["en", "en", "en", "wrong", ""])
+            conn["auth_secondary"] = rng.choice(["en", "en", "en", "en", "en", "wrong", ""])
     elif plat != "generic" and rng.random() < 0.15:
         dev["login_mode"] = "configuration"
     if rng.random() < 0.5:
@@ -368,7 +371,11 @@ def gen_scenario(rng, plat=None):
     else:
         ops.append(["enter"] if rng.random() < 0.2 else ["open"])
     for _ in range(rng.choice([1, 1, 2, 3, 4, 6])):
-        ops.append(gen_op(rng, plat, hostname))
+        op = gen_op(rng, plat, hostname)
+        if isinstance(op[-1], dict) and op[-1].get("privilege_level") == "sess1" and rng.random() < 0.75 \
+                and ["register_configuration_session", "sess1"] not in ops:
+            ops.append(["register_configuration_session", "sess1"])
+        ops.append(op)
     if rng.random() < 0.85:
         ops.append(["exit"] if ops[0] == ["enter"] or rng.random() < 0.1 else ["close"])
         if rng.random() < 0.1:
@@ -612,6 +619,7 @@ def run(tier, seed):
                       "asyncio.sleep inside the asyncio login loop is replaced by a zero-length sleep in simulated runs (waiting is not an observable of C06)",
                       "timing (which stack times out when) is outside C06 except for the listed findings; see C07"]
     # ---------------------------------------------------------------- 1 translate
+    phases, tp = {}, time.time()
     try:
         translate.translate(PID)
     except Exception as e:      # noqa
@@ -620,6 +628,7 @@ def run(tier, seed):
     proved = ck.prove("ScrapliProps.C06", lemma_files=["ScrapliProps/C06Lemmas.lean", "ScrapliModel/Parity.lean", "ScrapliModel/ParityRun.lean"])
     if tier == "thorough":
         ck.leanchecker("ScrapliProps.C06")
+    phases['translate+prove'], tp = round(time.time() - tp, 1), time.time()
     # ---------------------------------------------------------------- 3 requests for the model (one call)
     lines = ["parity", "asynconly"]
     pats = pat_strings(ck.rng, tier)
@@ -632,7 +641,7 @@ def run(tier, seed):
             auth_cases.append((tape_from_json(c["sync"]), tape_from_json(c["async"]), c["user"], c["password"], c["interval"]))
     except FileNotFoundError:
         pass
-    for _ in range(400 if tier == "quick" else 6000):
+    for _ in range(1000 if tier == "quick" else 20000):
         auth_cases.append(gen_auth_case(ck.rng))
     for tS, tA, u, p, iv in auth_cases:
         lines.append(f"auth sync {iv} {hexs(u.encode())} {hexs(p.encode())} 0a {enc_tape(tS)}")
@@ -642,6 +651,7 @@ def run(tier, seed):
     except Exception as e:      # noqa
         ck.proof_broken("model driver Drv/C06.lean", repr(e))
         mout = None
+    phases['model-driver'], tp = round(time.time() - tp, 1), time.time()
     # ---------------------------------------------------------------- 4 parity: oracle + correspondence
     unaudited = []
     try:
@@ -679,6 +689,7 @@ def run(tier, seed):
             ck.discharged += 1
     except Exception as e:      # noqa
         ck.proof_broken("parity oracle / twin comparison", repr(e))
+    phases['parity+twins'], tp = round(time.time() - tp, 1), time.time()
     # ---------------------------------------------------------------- 5 pattern predicates + login variants
     if mout is not None:
         try:
@@ -728,6 +739,7 @@ def run(tier, seed):
         except Exception as e:      # noqa
             import traceback
             ck.proof_broken("login-variant correspondence harness", traceback.format_exc()[-1500:])
+    phases['login-variants'], tp = round(time.time() - tp, 1), time.time()
     # ---------------------------------------------------------------- 6 paired scenarios (simulated transports)
     scns = []
     try:
@@ -737,11 +749,12 @@ def run(tier, seed):
     ncorpus = len(scns)
     scns += enumerated_scenarios()
     nenum = len(scns) - ncorpus
-    ngen = 900 if tier == "quick" else 16000
+    ngen = 2500 if tier == "quick" else 30000
     for _ in range(ngen):
         scns.append(gen_scenario(ck.rng))
     new_viol = handle_pairs(ck, run_pairs(scns), S)
     ck.extra["scenarios_corpus"], ck.extra["scenarios_enumerated_small_scope"], ck.extra["scenarios_generated"] = ncorpus, nenum, ngen
+    phases['paired-scenarios'], tp = round(time.time() - tp, 1), time.time()
     # ---------------------------------------------------------------- 7 real Telnet transports over loopback
     rig_trouble = []
     real = REAL_TELNET_SCNS if tier == "thorough" else REAL_TELNET_SCNS[:3]
@@ -764,6 +777,7 @@ def run(tier, seed):
             ck.traces_validated += 1
     if rig_trouble:
         ck.extra["advisory_rig_trouble"] = rig_trouble[:5]
+    phases['real-telnet'], tp = round(time.time() - tp, 1), time.time()
     # ---------------------------------------------------------------- 8 known findings: replay the stored witnesses
     what = {f["id"]: f["what"] for f in ck.findings}
     try:
@@ -793,6 +807,7 @@ def run(tier, seed):
                 ck.known_finding("C06-F5", what["C06-F5"])
     except Exception as e:      # noqa
         ck.extra["advisory_witness_replay_trouble"] = repr(e)
+    phases['finding-witnesses'], tp = round(time.time() - tp, 1), time.time()
     # ---------------------------------------------------------------- 9 something no longer checks: widen the search for a failing input
     if ck.broken and not ck.violations and any(d[0].startswith("transport") for d in unaudited):
         # a Telnet transport twin changed: all real-transport scenarios x negotiation variants
@@ -821,6 +836,8 @@ def run(tier, seed):
             handle_pairs(ck, run_pairs(batch), S)
             extra += len(batch)
         ck.extra["widened_search_scenarios"] = extra
+    phases["widened-search"] = round(time.time() - tp, 1)
+    ck.extra["phase_seconds"] = phases
     ck.extra["programs"] = ck.extra.get("programs", 0) + 2 * len(auth_cases)
     ck.notes.append("translation_validation: identical scenarios executed on the real sync and asyncio stacks and compared pairwise (programs = scenario x stack); "
                     "proof obligations inside the same evidence: the parity table and the twin-diff pin decided by the Lean kernel on regenerated data, "
